@@ -12,6 +12,7 @@ import (
 	"fmt"
 	"go/token"
 	"go/types"
+	"regexp"
 	"strings"
 
 	"golang.org/x/tools/go/ssa"
@@ -383,4 +384,138 @@ func tableStr(w *World, t map[string]ssa.Value) string {
 		parts = append(parts, k+"←"+w.Origin(t[k]))
 	}
 	return strings.Join(parts, ", ")
+}
+
+// ---------------------------------------------------------------------------------------------
+// literals seen through one level of helper
+
+// Lit is a struct literal in origin terms of the function that (directly or through one module-local
+// helper call) builds it.
+type Lit struct {
+	Table map[string]string // flattened field path → origin term, in the caller's terms
+	Pos   token.Pos
+	At    ssa.Instruction // the alloc, or the helper call in the caller
+	Alloc *ssa.Alloc      // non-nil when built in place in the caller
+}
+
+var reRecv = regexp.MustCompile(`\brecv\b`)
+
+// litOf resolves v to the struct literal it denotes: an in-place literal, or the result of a call to a
+// module function all of whose returns are an in-place literal (one level), with the callee's parameters
+// and receiver substituted by the argument origins of the call.
+func (w *World) litOf(v ssa.Value) (*Lit, bool) {
+	if a := asAlloc(v); a != nil {
+		if _, isStruct := a.Type().(*types.Pointer).Elem().Underlying().(*types.Struct); isStruct {
+			t := map[string]string{}
+			if !flattenAllocW(w, a, "", t, 0) {
+				return nil, false
+			}
+			return &Lit{Table: t, Pos: a.Pos(), At: a, Alloc: a}, true
+		}
+	}
+	call, ok := unwrap(v).(*ssa.Call)
+	if !ok {
+		if u, isU := unwrap(v).(*ssa.UnOp); isU && u.Op == token.MUL {
+			call, ok = u.X.(*ssa.Call)
+		}
+		if !ok {
+			return nil, false
+		}
+	}
+	f := call.Common().StaticCallee()
+	if f == nil || f.Blocks == nil || !w.inModule(f) {
+		return nil, false
+	}
+	var lit *ssa.Alloc
+	n := 0
+	allInstrs(f, func(in ssa.Instruction) {
+		if r, ok := in.(*ssa.Return); ok && len(r.Results) == 1 {
+			n++
+			lit = asAlloc(r.Results[0])
+		}
+	})
+	if n != 1 || lit == nil {
+		return nil, false
+	}
+	t := map[string]string{}
+	if !flattenAllocW(w, lit, "", t, 0) {
+		return nil, false
+	}
+	// substitute
+	subst := map[string]string{}
+	for i, p := range f.Params {
+		if i < len(call.Common().Args) {
+			ao := w.Origin(call.Common().Args[i])
+			if f.Signature.Recv() != nil && i == 0 {
+				subst["recv"] = ao
+			} else {
+				subst["param("+p.Name()+")"] = ao
+			}
+		}
+	}
+	out := map[string]string{}
+	for k, o := range t {
+		for from, to := range subst {
+			if from == "recv" {
+				continue
+			}
+			o = strings.ReplaceAll(o, from, "\x00"+to+"\x00")
+		}
+		if r, ok := subst["recv"]; ok {
+			o = reRecv.ReplaceAllString(o, r)
+		}
+		out[k] = strings.ReplaceAll(o, "\x00", "")
+	}
+	return &Lit{Table: out, Pos: call.Pos(), At: call}, true
+}
+
+func flattenAllocW(w *World, a *ssa.Alloc, prefix string, out map[string]string, depth int) bool {
+	tab, ok := allocTable(a)
+	if !ok {
+		return false
+	}
+	for k, v := range tab {
+		if na := asAlloc(v); na != nil && depth < 4 {
+			if _, isStruct := na.Type().(*types.Pointer).Elem().Underlying().(*types.Struct); isStruct {
+				if !flattenAllocW(w, na, prefix+k+".", out, depth+1) {
+					return false
+				}
+				continue
+			}
+		}
+		if l, ok := w.litOf(v); ok && depth < 4 && l.Alloc == nil {
+			for kk, vv := range l.Table {
+				out[prefix+k+"."+kk] = vv
+			}
+			continue
+		}
+		out[prefix+k] = w.Origin(v)
+	}
+	return true
+}
+
+// litsIn lists the literals of the named struct type that fn builds in place or obtains from a one-level helper.
+func (w *World) litsIn(fn *ssa.Function, named *types.Named) []*Lit {
+	var out []*Lit
+	allInstrs(fn, func(in ssa.Instruction) {
+		switch x := in.(type) {
+		case *ssa.Alloc:
+			if types.Identical(types.Unalias(x.Type().(*types.Pointer).Elem()), named) {
+				if l, ok := w.litOf(x); ok {
+					out = append(out, l)
+				}
+			}
+		case *ssa.Call:
+			rt := x.Type()
+			if p, ok := rt.Underlying().(*types.Pointer); ok {
+				rt = p.Elem()
+			}
+			if types.Identical(types.Unalias(rt), named) {
+				if l, ok := w.litOf(x); ok {
+					out = append(out, l)
+				}
+			}
+		}
+	})
+	return out
 }
